@@ -1,17 +1,12 @@
 #!/bin/bash
 # Run every confirmed seed against its property's check (and extra checks given in
-# seeded/<name>/also.txt) in scratch worktrees; write seeded/RESULTS.tsv
+# seeded/<name>/also.txt) in scratch worktrees, $JOBS at a time; write seeded/RESULTS.tsv
 cd /verif
 OUT=seeded/RESULTS.tsv
-echo -e "seed\tcheck\ttier\texit\tsignature" > $OUT.tmp
-for d in seeded/C*/; do
-  S=$(basename $d); P=${S%-*}
-  CHECKS="$P"; [ -f $d/also.txt ] && CHECKS="$CHECKS $(cat $d/also.txt)"
-  for C in $CHECKS; do
-    LINE=$(tools/run_seed.sh $S $C quick)
-    RC=$(echo "$LINE" | sed -n 's/.*exit=\([0-9]*\).*/\1/p')
-    SIG=$(echo "$LINE" | sed -n 's/.*signature: \(.*\)/\1/p')
-    echo -e "$S\t$C\tquick\t$RC\t$SIG" >> $OUT.tmp
-  done
-done
-mv $OUT.tmp $OUT
+JOBS=${JOBS:-4}
+PAIRS=$(for d in seeded/C*/; do S=$(basename $d); P=${S%-*}; echo "$S $P"; [ -f $d/also.txt ] && for C in $(cat $d/also.txt); do echo "$S $C"; done; done)
+TMP=$(mktemp -d)
+echo "$PAIRS" | xargs -P $JOBS -L 1 bash -c 'LINE=$(tools/run_seed.sh $0 $1 quick); RC=$(echo "$LINE" | sed -n "s/.*exit=\([0-9]*\).*/\1/p"); SIG=$(echo "$LINE" | sed -n "s/.*signature: \(.*\)/\1/p"); echo -e "$0\t$1\tquick\t$RC\t$SIG" > '$TMP'/$0-$1.tsv'
+echo -e "seed\tcheck\ttier\texit\tsignature" > $OUT
+cat $TMP/*.tsv | sort >> $OUT
+rm -rf $TMP
